@@ -1,3 +1,156 @@
+(* C07/Properties.v — hostile or malformed packets never crash or wedge the control plane.
+   `is_crash r = false` means: r is neither Panic (Go would panic) nor OutOfFuel (the loop might not
+   terminate).  Every top-level parser runs its loops with fuel S (length input) (see Model.v), so a
+   theorem about the top-level definition carries the length-derived bound; the *_fuel theorems state
+   the bound explicitly for the recursive walks.  All statements are for the Repaired variant (= the
+   code with fixes/C07_*.patch applied; identical to today's code everywhere except a declared PPP
+   length below 4).  Each theorem is closed by [exact] of a lemma of Proofs.v. *)
 From OV Require Import Common.Base C07.Model C07.Proofs.
-Theorem C07_placeholder : True. Proof. exact Proofs.placeholder. Qed.
-Print Assumptions C07_placeholder.
+Local Open Scope N_scope.
+
+(* ---- every modelled entry point, any numeric arguments, any byte strings ---- *)
+Theorem C07_all_entries_total :
+  forall entry na ba, is_crash (run Repaired entry na ba) = false.
+Proof. exact run_total. Qed.
+Print Assumptions C07_all_entries_total.
+
+(* ---- PPP dispatcher (internal/ppp/dispatcher.go HandleFrame) ---- *)
+Theorem C07_dispatcher_total :
+  forall cfg proto payload, is_crash (handle_frame Repaired cfg proto payload) = false.
+Proof. exact handle_frame_total. Qed.
+Print Assumptions C07_dispatcher_total.
+
+(* the current code violates it: LCP frame 01 01 00 00 (declared length 0) panics *)
+Theorem C07_dispatcher_total_refuted :
+  exists cfg proto payload, handle_frame Defective cfg proto payload = Panic.
+Proof. exact handle_frame_refuted. Qed.
+Print Assumptions C07_dispatcher_total_refuted.
+
+(* the repair changes nothing except turning exactly those panics into the length-mismatch error *)
+Theorem C07_dispatcher_repair_conservative :
+  forall cfg proto payload,
+  handle_frame Defective cfg proto payload = handle_frame Repaired cfg proto payload \/
+  (handle_frame Defective cfg proto payload = Panic /\ handle_frame Repaired cfg proto payload = Err 2).
+Proof. exact handle_frame_repair_conservative. Qed.
+Print Assumptions C07_dispatcher_repair_conservative.
+
+(* ---- pkg/ppp ParsePAPPacket / ParseCHAPPacket / ParseIPv6CPPacket ---- *)
+Theorem C07_ppp_packet_header_total : forall data, is_crash (ppp_hdr Repaired data) = false.
+Proof. exact ppp_hdr_total. Qed.
+Print Assumptions C07_ppp_packet_header_total.
+Theorem C07_ppp_packet_header_total_refuted : exists data, ppp_hdr Defective data = Panic.
+Proof. exact ppp_hdr_refuted. Qed.
+Print Assumptions C07_ppp_packet_header_total_refuted.
+Theorem C07_ppp_packet_header_repair_conservative :
+  forall data, ppp_hdr Defective data = ppp_hdr Repaired data \/
+  (ppp_hdr Defective data = Panic /\ ppp_hdr Repaired data = Err 1).
+Proof. exact ppp_hdr_repair_conservative. Qed.
+Print Assumptions C07_ppp_packet_header_repair_conservative.
+
+(* ---- pkg/ppp option list, PAP / CHAP bodies (also the copies in internal/pppoe/session.go), echo ---- *)
+Theorem C07_ppp_options_total : forall data, is_crash (ppp_parse_options data) = false.
+Proof. exact ppp_parse_options_total. Qed.
+Print Assumptions C07_ppp_options_total.
+Theorem C07_ppp_options_total_fuel :
+  forall fuel data, (length data < fuel)%nat -> is_crash (ppp_opts_loop fuel data) = false.
+Proof. exact ppp_opts_loop_total. Qed.
+Print Assumptions C07_ppp_options_total_fuel.
+Theorem C07_pap_request_total : forall data, is_crash (pap_req data) = false.
+Proof. exact pap_req_total. Qed.
+Print Assumptions C07_pap_request_total.
+Theorem C07_pap_message_total : forall data, is_crash (pap_msg data) = false.
+Proof. exact pap_msg_total. Qed.
+Print Assumptions C07_pap_message_total.
+Theorem C07_chap_challenge_total : forall data, is_crash (chap_challenge data) = false.
+Proof. exact chap_challenge_total. Qed.
+Print Assumptions C07_chap_challenge_total.
+Theorem C07_chap_response_total : forall data, is_crash (chap_response data) = false.
+Proof. exact chap_response_total. Qed.
+Print Assumptions C07_chap_response_total.
+Theorem C07_echo_total : forall data, is_crash (echo_tail data) = false.
+Proof. exact echo_tail_total. Qed.
+Print Assumptions C07_echo_total.
+
+(* ---- pkg/pppoe ParseTags incl. vendor-specific sub-options ---- *)
+Theorem C07_pppoe_tags_total : forall payload, is_crash (parse_tags payload) = false.
+Proof. exact parse_tags_total. Qed.
+Print Assumptions C07_pppoe_tags_total.
+Theorem C07_pppoe_tags_total_fuel :
+  forall fuel off payload t, (N.to_nat (lenN payload - off) < fuel)%nat ->
+  is_crash (tags_loop fuel off payload t) = false.
+Proof. exact tags_loop_total. Qed.
+Print Assumptions C07_pppoe_tags_total_fuel.
+
+(* ---- pkg/l2tp header, AVP walk, v3 detection ---- *)
+Theorem C07_l2tp_header_total : forall b, is_crash (l2tp_parse b) = false.
+Proof. exact l2tp_parse_total. Qed.
+Print Assumptions C07_l2tp_header_total.
+Theorem C07_l2tp_avps_total : forall b, is_crash (parse_avps b) = false.
+Proof. exact parse_avps_total. Qed.
+Print Assumptions C07_l2tp_avps_total.
+Theorem C07_l2tp_v3_detect_total : forall b, is_crash (is_l2tpv3 b) = false.
+Proof. exact is_l2tpv3_total. Qed.
+Print Assumptions C07_l2tp_v3_detect_total.
+
+(* ---- pkg/dhcp6 ParseMessage / ParseOptions / parseIANA / parseIAPD / UnwrapRelay / UnwrapRelayReply ---- *)
+Theorem C07_dhcp6_message_total : forall data, is_crash (parse_message6 data) = false.
+Proof. exact parse_message6_total. Qed.
+Print Assumptions C07_dhcp6_message_total.
+Theorem C07_dhcp6_options_total : forall data, is_crash (parse_options6 data) = false.
+Proof. exact parse_options6_total. Qed.
+Print Assumptions C07_dhcp6_options_total.
+Theorem C07_dhcp6_ia_total : forall pd data, is_crash (parse_ia pd data) = false.
+Proof. exact parse_ia_total. Qed.
+Print Assumptions C07_dhcp6_ia_total.
+(* self-referential relay chains: the recursion depth is bounded by the message length *)
+Theorem C07_dhcp6_unwrap_relay_total_fuel :
+  forall fuel data, (length data < fuel)%nat -> is_crash (unwrap_relay fuel data) = false.
+Proof. exact unwrap_relay_total. Qed.
+Print Assumptions C07_dhcp6_unwrap_relay_total_fuel.
+Theorem C07_dhcp6_unwrap_relay_reply_total_fuel :
+  forall fuel data, (length data < fuel)%nat -> is_crash (unwrap_relay_reply fuel data) = false.
+Proof. exact unwrap_relay_reply_total. Qed.
+Print Assumptions C07_dhcp6_unwrap_relay_reply_total_fuel.
+(* every nested relay message is strictly shorter than the one that carries it *)
+Theorem C07_dhcp6_relay_nesting_shrinks :
+  forall fuel off data inner, find_relay_msg fuel off data = Ok (Some inner) -> 4 <= off ->
+  lenN inner < lenN data.
+Proof. exact find_relay_msg_shorter. Qed.
+Print Assumptions C07_dhcp6_relay_nesting_shrinks.
+
+(* ---- pkg/dhcp/relay: v6 relay unwrap, option 82 insert/strip, option rewrite ---- *)
+Theorem C07_relay_v6_unwrap_total : forall pkt, is_crash (relay_unwrap_reply pkt) = false.
+Proof. exact relay_unwrap_reply_total. Qed.
+Print Assumptions C07_relay_v6_unwrap_total.
+Theorem C07_relay_v6_txid_total : forall pkt, is_crash (relay_txid pkt) = false.
+Proof. exact relay_txid_total. Qed.
+Print Assumptions C07_relay_v6_txid_total.
+Theorem C07_relay_insert_option82_total :
+  forall pkt opt82 policy, is_crash (insert_option82 pkt opt82 policy) = false.
+Proof. exact insert_option82_total. Qed.
+Print Assumptions C07_relay_insert_option82_total.
+Theorem C07_relay_strip_option82_total : forall pkt, is_crash (strip_option82 pkt) = false.
+Proof. exact strip_option82_total. Qed.
+Print Assumptions C07_relay_strip_option82_total.
+Theorem C07_relay_set_option_total : forall pkt code val, is_crash (set_option4 pkt code val) = false.
+Proof. exact set_option4_total. Qed.
+Print Assumptions C07_relay_set_option_total.
+Theorem C07_relay_get_option_total : forall pkt code, is_crash (get_option4 pkt code) = false.
+Proof. exact get_option4_total. Qed.
+Print Assumptions C07_relay_get_option_total.
+
+(* ---- DHCPv4: pkg/dhcp Parse, pkg/dhcp4 ParseMessage, option-82 sub-options (pkg/dhcp and internal/ipoe) ---- *)
+Theorem C07_dhcp_parse_total : forall data, is_crash (dhcp_parse data) = false.
+Proof. exact dhcp_parse_total. Qed.
+Print Assumptions C07_dhcp_parse_total.
+Theorem C07_dhcp4_message_total : forall data, is_crash (parse_message4 data) = false.
+Proof. exact parse_message4_total. Qed.
+Print Assumptions C07_dhcp4_message_total.
+Theorem C07_option82_suboptions_total : forall data, is_crash (parse_sub82 data) = false.
+Proof. exact parse_sub82_total. Qed.
+Print Assumptions C07_option82_suboptions_total.
+
+(* ---- RADIUS Message-Authenticator offset (transport.go findAttr80) and the 16-byte window its callers slice ---- *)
+Theorem C07_radius_attr80_total : forall raw, is_crash (attr80_window raw) = false.
+Proof. exact attr80_window_total. Qed.
+Print Assumptions C07_radius_attr80_total.
